@@ -514,14 +514,14 @@ func hasDup(a []int) bool {
 // ---------------------------------------------------------------------------------------------- generation
 
 type selCase struct {
-	mode                   string
-	m, n                   int
-	feeRate, mc, target    uint64
-	maxPn, maxPd, kn, kd   uint64
-	tries                  int64
-	outs                   []int
-	vals                   []uint64
-	kinds                  []string
+	mode                 string
+	m, n                 int
+	feeRate, mc, target  uint64
+	maxPn, maxPd, kn, kd uint64
+	tries                int64
+	outs                 []int
+	vals                 []uint64
+	kinds                []string
 }
 
 func (c *selCase) op() string {
@@ -870,7 +870,7 @@ func (f *btcsel) Gen(r *hx.Run) {
 		defer pprof.StopCPUProfile()
 	}
 	r.Rule("sel: one selector call (Select / SimpleBnbSearch / SortedSearch) on a generated UTXO list (0..120 outputs, six value styles incl. equal values and satoshi-scale, witness-only / p2sh-only / mixed script kinds), targets steered to exact subset sums, prefix sums, totals and misses, min-change 0..4x target, fee rates that make the fee reach the target, varied maxP / k / search budget; distinct non-trivial = distinct (mode, length, kinds, selection size, mc>0, fee class) among successful selections. hist: deposit/withdrawal sequences through chooseUtxos on a real CacheDB; non-trivial = at least two successful withdrawals")
-	// corpus: the inputs on which the two repaired SortedSearch defects were found (run first)
+	// corpus: the inputs on which the three repaired defects were found (run first)
 	{
 		r.Case("corpus-f6")
 		r.Do("sel sorted 2 3 1 2000 1000 1 1 4 1 1000000 34 1500:w,1400:w,1300:w,50:w")
@@ -878,6 +878,18 @@ func (f *btcsel) Gen(r *hx.Run) {
 		r.Case("corpus-p2sh-skip")
 		r.Do("sel select 11 15 3 0 4251 2 3 4 1 1000000 252,0 3000:s,3000:w,3000:s,3000:s,2000:w,1000:w,1000:w,1000:w")
 		r.Do("sel sorted 3 5 3 58 6702 1 1 4 1 1000000 - 1000:o,1001:o,1002:s,1003:o,1004:w,1005:w,1006:w,1007:o")
+		r.Case("corpus-twin-outputs")
+		r.Do("init 2 3 3 5000")
+		r.Do("add 0 2000 s 00b68d817093e8b2cba41f5ddc7bbd200831cea66c8ace22718c5887e3ebdd21 1")
+		r.Do("add 1 2000 w 00b68d817093e8b2cba41f5ddc7bbd200831cea66c8ace22718c5887e3ebdd21 3")
+		r.Do("add 2 3000 s 22d53770c93f187b48f9e6ec8fcd9f5681e48b9cea524f2740dbfc273e009660 0")
+		r.Do("add 3 2000 s b78e86183f9b69cc98772e24e2e0d08c120e2b219e59594e481b20c27de8b051 2")
+		r.Do("add 4 4000 s 06864c20dde6277fca66fd62f84d80b5ba5fc0ee46e79aaa6317641dd1b45d7a 0")
+		r.Do("add 5 1000 w 782b75ac5d4e6fc86e02ae9b7f5e5a7dd2a7b3e642cfabb181f3e787c7c83115 1")
+		r.Do("add 6 4000 s fe316d446fea6268e8e49757fbaf9929f531c3e36b54d1b60e2c3ea5d48d7607 2")
+		r.Do("add 7 3000 s 22d53770c93f187b48f9e6ec8fcd9f5681e48b9cea524f2740dbfc273e009660 2")
+		r.Do("add 8 2000 w 00f33fc2c21dcda15b16e777be81cd3a584700c8f70b90fdd8dd256775f05a2f 1")
+		r.Do("maketx 23000")
 	}
 	nSel := r.Pick(6000, 50000)
 	if os.Getenv("HBTC_NOSEL") != "" {
